@@ -297,14 +297,56 @@ def effect (s : St) : Cmd → Option St
     (mkdirAll s.tree [] (splitSlash path).dropLast).map fun t => { s with tree := t }
   | _ => some s
 
+/-- the file a data / header command addresses under the current platform -/
+def targetPath (plat : Option UInt16) : Cmd → Option Path
+  | .addData m sub f .. => (plat.bind platformName).map fun pn => datPath pn m sub f
+  | .deleteData m sub f .. => (plat.bind platformName).map fun pn => datPath pn m sub f
+  | .expandData m sub f .. => (plat.bind platformName).map fun pn => datPath pn m sub f
+  | .header isIdx _ m sub f _ =>
+    (plat.bind platformName).map fun pn => if isIdx then indexPath pn m sub f else datPath pn m sub f
+  | .addFile _ _ path _ => some (splitSlash path)
+  | .deleteFile _ path => some (splitSlash path)
+  | _ => none
+
+/-- the paths a command may change: its target file and the directories leading to it; for
+RemoveAll everything at or below the expansion's `sqpack` folder; for MakeDirTree the directories
+of the path -/
+def touched (plat : Option UInt16) (c : Cmd) (q : Path) : Prop :=
+  match c with
+  | .removeAll exp _ => [sSqpack, expansionFolder exp] <+: q
+  | .mkDirTree _ path => q <+: (splitSlash path).dropLast
+  | c => match targetPath plat c with
+    | some p => q <+: p
+    | none => False
+
 def run (s : St) : List Cmd → Option St
   | [] => some s
   | c :: cs => (effect s c).bind fun s' => run s' cs
+
+/-- the paths a whole sequence may change, the platform being tracked along the way -/
+def touchedRun (s : St) : List Cmd → Path → Prop
+  | [], _ => False
+  | c :: cs, q => touched s.plat c q ∨ match effect s c with
+    | some s1 => touchedRun s1 cs q
+    | none => False
 
 /-- a well-formed sequence on a given start state: every command syntactically well formed and
 the reference semantics defined at every step (decidable) -/
 def WFseq (cs : List Cmd) (s : St) : Bool :=
   cs.all Cmd.wf && (run s cs).isSome
+
+/-- reference semantics of several patches applied in order: each patch starts without a target
+platform; only the tree carries over -/
+def runChain : List (List Cmd) → Tree → Option Tree
+  | [], t => some t
+  | cs :: rest, t =>
+    match run { plat := none, tree := t } cs with
+    | some s => runChain rest s.tree
+    | none => none
+
+/-- every patch of a chain is a well-formed sequence on the tree it meets (decidable) -/
+def WFchain (pss : List (List Cmd)) (t : Tree) : Bool :=
+  pss.all (fun cs => cs.all Cmd.wf) && (runChain pss t).isSome
 
 /-! ## the assumption on zlib
 
